@@ -1,12 +1,16 @@
 package main
 
 import (
+	"go/token"
 	"go/types"
 	"net/url"
 	"path/filepath"
 	"regexp"
+	"regexp/syntax"
 	"sort"
 	"strings"
+	"time"
+	"unicode"
 
 	"golang.org/x/tools/go/ssa"
 )
@@ -111,7 +115,7 @@ func init() {
 		return Bool{C: args[0].(Int).C&(1<<31) != 0}
 	}
 	stubs["regexp.Compile"] = func(e *Exec, fn *ssa.Function, args []value) value {
-		s := argStr(args[0])
+		s := e.concretizeStr(args[0])
 		if _, err := regexp.Compile(s); err != nil {
 			return tuple{(*value)(nil), e.newError(err.Error(), nil)}
 		}
@@ -215,4 +219,396 @@ func (e *Exec) anchoredLiteralMatch(pat string, subj []Int) (value, bool) {
 		return Bool{C: e.decide(bytesEq(subj[:n], strBytes(string(lit))))}, true
 	}
 	return Bool{C: e.decide(bytesEq(subj[len(subj)-n:], strBytes(string(lit))))}, true
+}
+
+// ---- a model of stream sockets (C17): a listener is a queue of pending
+// connections; a connection is a byte queue written by the harness (the
+// peer), with end of file after the peer closed, an i/o timeout after
+// SetReadDeadline, "use of closed network connection" after Close ----
+
+var netConnType = types.NewNamed(types.NewTypeName(0, nil, "verif.netConn", nil), types.NewStruct(nil, nil), nil)
+var netListenerType = types.NewNamed(types.NewTypeName(0, nil, "verif.netListener", nil), types.NewStruct(nil, nil), nil)
+
+// netPacketObj is a datagram socket: a queue of datagrams.
+type netPacketObj struct {
+	addr             string
+	q                [][]Int
+	closed, deadline bool
+}
+
+func (c *netPacketObj) methods() map[string]bool {
+	return map[string]bool{"ReadFrom": true, "WriteTo": true, "Close": true, "SetReadDeadline": true, "SetDeadline": true, "SetWriteDeadline": true, "LocalAddr": true}
+}
+
+func (c *netPacketObj) invoke(e *Exec, method string, args []value) value {
+	switch method {
+	case "ReadFrom":
+		buf, _ := args[0].([]value)
+		if e.cur.id != 0 {
+			e.yield()
+		}
+		for {
+			if c.closed {
+				return tuple{mkI64(0), iface{}, e.newError("read: use of closed network connection", nil)}
+			}
+			if c.deadline {
+				return tuple{mkI64(0), iface{}, e.newError("read: i/o timeout", nil)}
+			}
+			if len(c.q) > 0 {
+				// one datagram per read; what does not fit is dropped
+				d := c.q[0]
+				c.q = c.q[1:]
+				k := len(d)
+				if len(buf) < k {
+					k = len(buf)
+				}
+				copy(buf[:k], bytesToSlice(d[:k]))
+				return tuple{mkI64(int64(k)), iface{}, iface{}}
+			}
+			e.block("read of an idle datagram socket", func() bool { return c.closed || c.deadline || len(c.q) > 0 })
+		}
+	case "Close":
+		if c.closed {
+			return e.newError("close: use of closed network connection", nil)
+		}
+		c.closed = true
+		delete(e.net.packets, c.addr)
+		return iface{}
+	case "SetReadDeadline", "SetDeadline":
+		c.deadline = true
+		return iface{}
+	case "SetWriteDeadline":
+		return iface{}
+	}
+	panic(inconclusive{"method " + method + " on a model datagram socket"})
+}
+
+var netAddrType = types.NewNamed(types.NewTypeName(0, nil, "verif.netAddr", nil), types.NewStruct(nil, nil), nil)
+
+type netAddrObj struct{ s string }
+
+func (a *netAddrObj) methods() map[string]bool {
+	return map[string]bool{"Network": true, "String": true}
+}
+func (a *netAddrObj) invoke(e *Exec, method string, args []value) value {
+	if method == "Network" {
+		return "unix"
+	}
+	return a.s
+}
+
+type netConnObj struct {
+	pkt                          *netPacketObj // a sender's handle on a datagram socket
+	id                           int
+	q                            []Int
+	peerClosed, closed, deadline bool
+}
+
+type netListenerObj struct {
+	addr    string
+	pending []*netConnObj
+	closed  bool
+}
+
+type netModel struct {
+	packets   map[string]*netPacketObj
+	listeners map[string]*netListenerObj
+	conns     []*netConnObj
+}
+
+func (c *netConnObj) methods() map[string]bool {
+	return map[string]bool{"Read": true, "Write": true, "Close": true, "SetReadDeadline": true, "SetDeadline": true, "SetWriteDeadline": true, "LocalAddr": true, "RemoteAddr": true}
+}
+
+func (c *netConnObj) invoke(e *Exec, method string, args []value) value {
+	switch method {
+	case "Read":
+		buf, _ := args[0].([]value)
+		if e.cur.id != 0 {
+			e.yield() // a system call: see the pipe model
+		}
+		for {
+			if c.closed {
+				return tuple{mkI64(0), e.newError("read: use of closed network connection", nil)}
+			}
+			if c.deadline {
+				return tuple{mkI64(0), e.newError("read: i/o timeout", nil)}
+			}
+			if len(buf) == 0 {
+				return tuple{mkI64(0), iface{}}
+			}
+			if len(c.q) > 0 {
+				max := len(c.q)
+				if len(buf) < max {
+					max = len(buf)
+				}
+				if max > 3 {
+					max = 3
+				}
+				k := 1
+				if max > 1 {
+					k = 1 + e.choose(max)
+					if k == max {
+						k = len(c.q)
+						if len(buf) < k {
+							k = len(buf)
+						}
+					}
+				}
+				copy(buf[:k], bytesToSlice(c.q[:k]))
+				c.q = c.q[k:]
+				return tuple{mkI64(int64(k)), iface{}}
+			}
+			if c.peerClosed {
+				return tuple{mkI64(0), e.ioEOF()}
+			}
+			e.block("read of an idle connection", func() bool { return c.closed || c.deadline || len(c.q) > 0 || c.peerClosed })
+		}
+	case "Close":
+		if c.closed {
+			return e.newError("close: use of closed network connection", nil)
+		}
+		c.closed = true
+		return iface{}
+	case "SetReadDeadline", "SetDeadline":
+		c.deadline = true
+		return iface{}
+	case "SetWriteDeadline":
+		return iface{}
+	case "RemoteAddr", "LocalAddr":
+		// the peers of a unix stream socket are unnamed: every accepted
+		// connection reports the same remote address
+		return iface{t: netAddrType, v: &netAddrObj{s: "@"}}
+	}
+	panic(inconclusive{"method " + method + " on a model connection"})
+}
+
+func (l *netListenerObj) methods() map[string]bool {
+	return map[string]bool{"Accept": true, "Close": true, "Addr": true}
+}
+
+func (l *netListenerObj) invoke(e *Exec, method string, args []value) value {
+	switch method {
+	case "Accept":
+		for {
+			if l.closed {
+				return tuple{iface{}, e.newError("accept: use of closed network connection", nil)}
+			}
+			if len(l.pending) > 0 {
+				c := l.pending[0]
+				l.pending = l.pending[1:]
+				return tuple{iface{t: netConnType, v: c}, iface{}}
+			}
+			e.block("accept", func() bool { return l.closed || len(l.pending) > 0 })
+		}
+	case "Close":
+		if l.closed {
+			return e.newError("close: use of closed network connection", nil)
+		}
+		l.closed = true
+		delete(e.net.listeners, l.addr)
+		return iface{}
+	}
+	panic(inconclusive{"method " + method + " on a model listener"})
+}
+
+func (e *Exec) netIntrinsic(name string, args []value) (value, bool) {
+	switch name {
+	case "vnetDial":
+		// a peer connects to the listener at addr: the connection's id, or -1
+		if pk := e.net.packets[argStr(args[1])]; pk != nil && !pk.closed {
+			c := &netConnObj{id: len(e.net.conns), pkt: pk}
+			e.net.conns = append(e.net.conns, c)
+			return mkI64(int64(c.id)), true
+		}
+		l := e.net.listeners[argStr(args[1])]
+		if l == nil || l.closed {
+			return mkI64(-1), true
+		}
+		c := &netConnObj{id: len(e.net.conns)}
+		e.net.conns = append(e.net.conns, c)
+		l.pending = append(l.pending, c)
+		return mkI64(int64(c.id)), true
+	case "vnetWrite":
+		id := int(args[0].(Int).signed())
+		if id >= 0 && id < len(e.net.conns) && !e.net.conns[id].peerClosed {
+			if pk := e.net.conns[id].pkt; pk != nil {
+				if !pk.closed {
+					pk.q = append(pk.q, append([]Int{}, strBytes(args[1])...))
+				}
+				return nil, true
+			}
+			e.net.conns[id].q = append(e.net.conns[id].q, strBytes(args[1])...)
+		}
+		return nil, true
+	case "vnetClose":
+		id := int(args[0].(Int).signed())
+		if id >= 0 && id < len(e.net.conns) {
+			e.net.conns[id].peerClosed = true
+		}
+		return nil, true
+	}
+	return nil, false
+}
+
+var netPacketType = types.NewNamed(types.NewTypeName(0, nil, "verif.netPacketConn", nil), types.NewStruct(nil, nil), nil)
+
+func init() {
+	stubs["net.ListenPacket"] = func(e *Exec, fn *ssa.Function, args []value) value {
+		addr := argStr(args[1])
+		if e.net.packets == nil {
+			e.net.packets = map[string]*netPacketObj{}
+		}
+		if e.net.packets[addr] != nil {
+			return tuple{iface{}, e.newError("listen: address already in use", nil)}
+		}
+		c := &netPacketObj{addr: addr}
+		e.net.packets[addr] = c
+		return tuple{iface{t: netPacketType, v: c}, iface{}}
+	}
+	stubs["net.Listen"] = func(e *Exec, fn *ssa.Function, args []value) value {
+		addr := argStr(args[1])
+		if e.net.listeners == nil {
+			e.net.listeners = map[string]*netListenerObj{}
+		}
+		if e.net.listeners[addr] != nil {
+			return tuple{iface{}, e.newError("listen: address already in use", nil)}
+		}
+		l := &netListenerObj{addr: addr}
+		e.net.listeners[addr] = l
+		return tuple{iface{t: netListenerType, v: l}, iface{}}
+	}
+}
+
+// unicode classification of a symbolic rune: exact for runes up to 0xFF (the
+// Latin-1 tables of package unicode, as ranges); a larger symbolic rune is
+// concretised.
+func init() {
+	type rng struct{ lo, hi int64 }
+	class := func(name string, ranges []rng, native func(rune) bool) {
+		stubs["unicode."+name] = func(e *Exec, fn *ssa.Function, args []value) value {
+			r := args[0].(Int)
+			if r.isConc() {
+				return Bool{C: native(rune(r.signed()))}
+			}
+			r.S = true
+			le := intBinop(token.LEQ, r, mkInt(32, true, 0xFF)).(Bool)
+			ge := intBinop(token.GEQ, r, mkInt(32, true, 0)).(Bool)
+			if !e.decide(band(le, ge)) {
+				c := e.concretize(r)
+				return Bool{C: native(rune(c.signed()))}
+			}
+			cond := Bool{C: false}
+			for _, x := range ranges {
+				a := intBinop(token.GEQ, r, mkInt(32, true, uint64(x.lo))).(Bool)
+				b := intBinop(token.LEQ, r, mkInt(32, true, uint64(x.hi))).(Bool)
+				cond = bor(cond, band(a, b))
+			}
+			return Bool{C: e.decide(cond)}
+		}
+	}
+	class("IsLetter", []rng{{'A', 'Z'}, {'a', 'z'}, {0xAA, 0xAA}, {0xB5, 0xB5}, {0xBA, 0xBA}, {0xC0, 0xD6}, {0xD8, 0xF6}, {0xF8, 0xFF}}, unicode.IsLetter)
+	class("IsDigit", []rng{{'0', '9'}}, unicode.IsDigit)
+	class("IsSpace", []rng{{'\t', '\r'}, {' ', ' '}, {0x85, 0x85}, {0xA0, 0xA0}}, unicode.IsSpace)
+}
+
+// concretizeStr: the string with every symbolic byte concretised (a fork per
+// feasible value; meant for strings whose bytes the path has already pinned).
+func (e *Exec) concretizeStr(v value) string {
+	if s, ok := concStr(v); ok {
+		return s
+	}
+	bs := strBytes(v)
+	out := make([]byte, len(bs))
+	for i, b := range bs {
+		if b.X != nil {
+			panic(inconclusive{"concretising formatted text"})
+		}
+		out[i] = byte(e.concretizeUpTo(b, 256).C)
+	}
+	return string(out)
+}
+
+func init() {
+	stubs["time.ParseDuration"] = func(e *Exec, fn *ssa.Function, args []value) value {
+		d, err := time.ParseDuration(e.concretizeStr(args[0]))
+		if err != nil {
+			return tuple{mkI64(0), e.newError(err.Error(), nil)}
+		}
+		return tuple{mkI64(int64(d)), iface{}}
+	}
+}
+
+// regexp/syntax (used by the mtail type checker): patterns are parsed by the
+// real package on the concretised pattern text; the tree is copied into
+// engine values (fields Op, Flags, Sub, Rune, Min, Max, Cap, Name), with a
+// side table back to the native tree for the methods.
+func (e *Exec) reConv(re *syntax.Regexp, pt *types.Pointer) *value {
+	if re == nil {
+		return nil
+	}
+	st := zero(pt.Elem()).(structure)
+	set := func(f string, v value) {
+		if i := structField(pt.Elem(), f); i >= 0 {
+			st[i] = v
+		}
+	}
+	set("Op", Int{W: 8, C: uint64(re.Op)})
+	set("Flags", Int{W: 16, C: uint64(re.Flags)})
+	subs := make([]value, len(re.Sub))
+	for i, s := range re.Sub {
+		subs[i] = e.reConv(s, pt)
+	}
+	set("Sub", subs)
+	runes := make([]value, len(re.Rune))
+	for i, r := range re.Rune {
+		runes[i] = mkInt(32, true, uint64(r))
+	}
+	set("Rune", runes)
+	set("Min", mkI64(int64(re.Min)))
+	set("Max", mkI64(int64(re.Max)))
+	set("Cap", mkI64(int64(re.Cap)))
+	set("Name", re.Name)
+	p := new(value)
+	*p = st
+	if e.reNative == nil {
+		e.reNative = map[*value]*syntax.Regexp{}
+	}
+	e.reNative[p] = re
+	return p
+}
+
+func init() {
+	native := func(e *Exec, v value) *syntax.Regexp {
+		p, _ := v.(*value)
+		re := e.reNative[p]
+		if re == nil {
+			panic(inconclusive{"regexp/syntax method on a tree that was not parsed through the engine's stub"})
+		}
+		return re
+	}
+	stubs["regexp/syntax.Parse"] = func(e *Exec, fn *ssa.Function, args []value) value {
+		pt := fn.Signature.Results().At(0).Type().(*types.Pointer)
+		re, err := syntax.Parse(e.concretizeStr(args[0]), syntax.Flags(args[1].(Int).C))
+		if err != nil {
+			return tuple{(*value)(nil), e.newError(err.Error(), nil)}
+		}
+		return tuple{e.reConv(re, pt), iface{}}
+	}
+	stubs["(*regexp/syntax.Regexp).Simplify"] = func(e *Exec, fn *ssa.Function, args []value) value {
+		return e.reConv(native(e, args[0]).Simplify(), fn.Signature.Results().At(0).Type().(*types.Pointer))
+	}
+	stubs["(*regexp/syntax.Regexp).CapNames"] = func(e *Exec, fn *ssa.Function, args []value) value {
+		var out []value
+		for _, n := range native(e, args[0]).CapNames() {
+			out = append(out, n)
+		}
+		return out
+	}
+	stubs["(*regexp/syntax.Regexp).MaxCap"] = func(e *Exec, fn *ssa.Function, args []value) value {
+		return mkI64(int64(native(e, args[0]).MaxCap()))
+	}
+	stubs["(*regexp/syntax.Regexp).String"] = func(e *Exec, fn *ssa.Function, args []value) value {
+		return native(e, args[0]).String()
+	}
 }
